@@ -427,6 +427,10 @@ SetupStep ==
     [] r.op = "CreateSub" -> CreateSub(r.c)
     [] r.op = "Publish" -> Publish(r.topic, r.msgs)
     [] r.op = "SetDelay" -> SetDelay(r.name, r.d)
+    [] r.op = "Tick" ->
+         LET e == [op |-> "Tick", d |-> r.d, t0 |-> S.now, t1 |-> S.now + r.d] IN
+         /\ S' = [S EXCEPT !.now = @ + r.d, !.ph = @ + 1] /\ ev' = e
+         /\ hist' = IF Depth > 0 THEN Append(hist, e) ELSE hist
 
 SeekTargets == IF S.now <= 8 THEN 0..(S.now + 1)
                ELSE {0, S.now + 1} \cup {S.now - k : k \in {0, 1, 2, 4, 7}}
